@@ -63,7 +63,39 @@
     - [flip_reg reg bs]: ApplyBitFlipsBytes on the 8 little-endian bytes
       [le_bytes 8 reg] of the register, read back with [of_le].
 
-    Open finding (KNOWN_FINDINGS.json): C03-drop-all-not-searched ([_refuted]
+    - [extend_injective extend], [pcr0data_injective pcr0data]: the abstract hash
+      has no collision (H(old || d) determines old and d; the digest of PCR0_DATA
+      determines the 64-bit register).  [C03_acm_unique_collision_free]: then
+      [acm_unique] holds for EVERY log, target, settings (MaxACMPolicyLinearDistance
+      a Go int: <= 2^64) and GOMAXPROCS; the [_collision_free] theorems are the
+      [_partial] ones with that hypothesis in place of [acm_unique].  That it cannot
+      be dropped: [C03_sound_colliding_hash_refuted] (one collision of [extend]; not
+      replayable on the real code, which would need a SHA-1/SHA-256 collision).
+      The free terms of the correspondence check are collision-free
+      ([C03_ex_collision_free]).
+
+    The two ends on the caller's tpm.CommandLog (Model/PCR0Tool.v):
+    - [lcmd D]: an entry of the command log ([LInit loc], [LExt pcr alg m], [LLog]);
+      [filter_log alg 0 cmds]: filteredMeasurements, the measurements with their
+      positions in the log; the [log] of the theorems above is [map snd] of it.
+    - [tool_verdict alg cmds target loc dis sw]: what pcr0tool's
+      printReproducePCR0Result (cmd/exp/pcr0tool/commands/sum/command.go, the only
+      consumer of a result in the repository) prints when it is handed the command
+      log, the requested value and a result with locality [loc], disabled
+      measurements at the log positions [dis] and swaps [sw]: [TVOk] = "Resulting
+      PCR0: ...", [TVMismatch] = "internal error: replayed PCR0 does not match the
+      expected one; the information above could not be trusted", [TVSilent] =
+      neither (the replay failed, the error is only logged), [TVPanic] =
+      ApplyOrderSwaps indexes out of range.  The corrected register is printed and
+      never applied.
+    - [cmd_positions f dis_f]: log positions of the disabled measurements of a
+      result ([r_disabled] counts in the filtered list).  [reg_neutral log r]: the
+      reported register leaves the digest sequence as recorded (no register, or the
+      recorded PCR0_DATA digest already is the hash with it: [reg_neutral_same]).
+      [no_init_kept loc cmds]: the log does not start with TPMInit([loc]).
+
+    Open findings (KNOWN_FINDINGS.json): C03-drop-all-not-searched,
+    C03-tool-replay-ignores-register, C03-tool-replay-swap-indices ([_refuted]
     below).  Repaired in /repo (section "fixed" there): C03-D21-linear-blocks
     (92fa0d4: blocks clamped to [0, limit); [C03_linear_blocks_exact],
     [C03_none], [C03_parallelism_*] lost the hypothesis GOMAXPROCS - 1 <= limit)
@@ -71,7 +103,9 @@
     [C03_returns], and [FHang] left the conclusions of [C03_complete_partial] and
     [C03_parallelism_partial]). *)
 From CSS Require Import Lib.Base Lib.Cases Model.Comb Proofs.Comb
-     Model.PCR0Search Model.PCR0SearchCases Proofs.PCR0Search.
+     Model.PCR0Search Model.PCR0Tool Model.PCR0SearchCases Proofs.PCR0Search
+     Proofs.PCR0SearchUnique Proofs.PCR0Tool.
+From Coq Require Import Sorting.Sorted.
 
 (** * 1. Order brute force (pairwise swaps) *)
 
@@ -206,7 +240,11 @@ Print Assumptions C03_register_bytes.
 
 (** * 3. Soundness: a reported result replays to the requested PCR0 *)
 
-(** PARTIAL: needs [acm_unique cf] (see the vocabulary) *)
+(** PARTIAL: needs [acm_unique cf] (see the vocabulary).  What is missing for the
+    statement of the property: nothing but this hypothesis, and it cannot be had
+    for an arbitrary hash ([C03_sound_colliding_hash_refuted]); it follows from
+    collision-freeness ([C03_acm_unique_collision_free]), which gives
+    [C03_sound_collision_free]. *)
 Theorem C03_sound_partial : forall D (deqb : D -> D -> bool),
   (forall a b, deqb a b = true <-> a = b) ->
   forall (pcr_init : Z -> D) (extend : D -> D -> D) (pcr0data : Z -> Z -> D) st
@@ -216,6 +254,60 @@ Theorem C03_sound_partial : forall D (deqb : D -> D -> bool),
   replay_result D pcr_init extend pcr0data log r = target /\ (r_loc r = 0 \/ r_loc r = 3).
 Proof. exact sound. Qed.
 Print Assumptions C03_sound_partial.
+
+(** [acm_unique] is a consequence of collision-freeness: two register candidates
+    that verify for the same measurements replay two digest lists of one length
+    to the same value, so the lists are equal (injective extend), both are
+    permutations of "candidate digest :: the other measurements", so the candidate
+    digests are equal, so the registers are (injective PCR0_DATA digest); the
+    candidates of a strategy are pairwise different registers ([C03_candidates_distinct]) *)
+Theorem C03_acm_unique_collision_free : forall D (deqb : D -> D -> bool),
+  (forall a b, deqb a b = true <-> a = b) ->
+  forall (pcr_init : Z -> D) (extend : D -> D -> D) (pcr0data : Z -> Z -> D) st
+         (log : list (meas D)) (target : D) cf,
+  extend_injective extend -> pcr0data_injective pcr0data -> lin_limit st <= 2 ^ 64 ->
+  acm_unique D deqb pcr_init extend pcr0data st log target cf.
+Proof. exact acm_unique_collision_free. Qed.
+Print Assumptions C03_acm_unique_collision_free.
+
+(** the decrements below a limit <= 2^64 and the bit-flip sets give pairwise
+    different 64-bit registers, whatever the start value *)
+Theorem C03_candidates_distinct :
+  (forall reg d1 d2 L, L <= 2 ^ 64 -> 0 <= d1 < L -> 0 <= d2 < L ->
+     wrap64 (reg - d1) = wrap64 (reg - d2) -> d1 = d2) /\
+  (forall reg k1 b1 k2 b2, In b1 (subsets k1 0 64) -> In b2 (subsets k2 0 64) ->
+     flip_reg reg b1 = flip_reg reg b2 -> b1 = b2) /\
+  (forall reg k bs, In bs (subsets k 0 64) -> 0 <= flip_reg reg bs < 2 ^ 64).
+Proof. exact (conj wrap64_sub_inj (conj flip_reg_inj flip_reg_range)). Qed.
+Print Assumptions C03_candidates_distinct.
+
+(** soundness for a collision-free hash: every log, setting, GOMAXPROCS, schedule *)
+Theorem C03_sound_collision_free : forall D (deqb : D -> D -> bool),
+  (forall a b, deqb a b = true <-> a = b) ->
+  forall (pcr_init : Z -> D) (extend : D -> D -> D) (pcr0data : Z -> Z -> D) st
+         (log : list (meas D)) (target : D) cf r,
+  extend_injective extend -> pcr0data_injective pcr0data -> lin_limit st <= 2 ^ 64 ->
+  In (FSome r) (outcomes D deqb pcr_init extend pcr0data st log target cf) ->
+  replay_result D pcr_init extend pcr0data log r = target /\ (r_loc r = 0 \/ r_loc r = 3).
+Proof. exact sound_cf. Qed.
+Print Assumptions C03_sound_collision_free.
+
+(** ... and not without: with ONE collision of the extend function (two PCR values
+    whose extension with the same digest gives the requested value) the three
+    goroutines of linearSearch.Process under GOMAXPROCS = 3 all succeed, and the
+    model lets the call return the register of one with the swaps stored by another
+    ("TODO: fix consistency on control flow between orderSwapsResult and reg"): that
+    result does not replay to the requested value (other swaps would), and (nil, nil)
+    is possible too although the value is reachable.  Not replayable on the real
+    code: it needs a collision of SHA-1 / SHA-256. *)
+Theorem C03_sound_colliding_hash_refuted :
+  In (FSome r_cw) (outcomes term term_eqb Init ext_cw DataH st_cw log_cw tgt_cw 3) /\
+  replay_result term Init ext_cw DataH log_cw r_cw <> tgt_cw /\
+  ~ extend_injective ext_cw /\
+  (exists sw', replay_result term Init ext_cw DataH log_cw (mkResult 0 (Some (R0 - 1)) [] sw') = tgt_cw) /\
+  In FNone (outcomes term term_eqb Init ext_cw DataH st_cw log_cw tgt_cw 3).
+Proof. exact sound_collision_witness. Qed.
+Print Assumptions C03_sound_colliding_hash_refuted.
 
 (** without any hypothesis: locality, register and disabled measurements of every
     reported result are right — there are swaps with which it replays to the target *)
@@ -269,6 +361,40 @@ Theorem C03_complete_partial : forall D (deqb : D -> D -> bool),
     exists r, o = FSome r.
 Proof. exact complete. Qed.
 Print Assumptions C03_complete_partial.
+
+(** PARTIAL only in "fewer than min(len, MaxDisabledMeasurements)" ([in_reach];
+    finding C03-drop-all-not-searched, refuted below): [acm_unique] replaced by
+    collision-freeness *)
+Theorem C03_complete_collision_free_partial : forall D (deqb : D -> D -> bool),
+  (forall a b, deqb a b = true <-> a = b) ->
+  forall (pcr_init : Z -> D) (extend : D -> D -> D) (pcr0data : Z -> Z -> D) st
+         (log : list (meas D)) (target : D) cf,
+  extend_injective extend -> pcr0data_injective pcr0data -> lin_limit st <= 2 ^ 64 ->
+  1 <= cf -> no_overflow D st log ->
+  reachable D pcr_init extend pcr0data st log target (prop_decs st) ->
+  forall o, In o (outcomes D deqb pcr_init extend pcr0data st log target cf) ->
+    exists r, o = FSome r.
+Proof. exact complete_cf. Qed.
+Print Assumptions C03_complete_collision_free_partial.
+
+(** completeness exactly as the property states it ("fewer than the configured
+    number of measurements dropped", any positions 0..len) for every log that has
+    at least MaxDisabledMeasurements PCR0 measurements -- the complement of the
+    region of the open finding *)
+Theorem C03_complete_long_log : forall D (deqb : D -> D -> bool),
+  (forall a b, deqb a b = true <-> a = b) ->
+  forall (pcr_init : Z -> D) (extend : D -> D -> D) (pcr0data : Z -> Z -> D) st
+         (log : list (meas D)) (target : D) cf,
+  extend_injective extend -> pcr0data_injective pcr0data -> lin_limit st <= 2 ^ 64 ->
+  1 <= cf -> no_overflow D st log ->
+  max_disabled st <= Z.of_nat (length log) ->
+  (exists loc c reg s, (loc = 0 \/ loc = 3) /\
+     Valid (Z.of_nat (length log)) c /\ Z.of_nat (length c) < max_disabled st /\
+     space D pcr_init extend pcr0data st log target (prop_decs st) loc c reg s) ->
+  forall o, In o (outcomes D deqb pcr_init extend pcr0data st log target cf) ->
+    exists r, o = FSome r.
+Proof. exact complete_long_log. Qed.
+Print Assumptions C03_complete_long_log.
 
 (** ... and some outcome always exists (unconditionally), so the statements about
     "every outcome" are not vacuous *)
@@ -352,6 +478,115 @@ Theorem C03_parallelism_none_partial : forall D (deqb : D -> D -> bool),
 Proof. exact parallelism_none. Qed.
 Print Assumptions C03_parallelism_none_partial.
 
+(** both for a collision-free hash, any two GOMAXPROCS values *)
+Theorem C03_parallelism_collision_free : forall D (deqb : D -> D -> bool),
+  (forall a b, deqb a b = true <-> a = b) ->
+  forall (pcr_init : Z -> D) (extend : D -> D -> D) (pcr0data : Z -> Z -> D) st
+         (log : list (meas D)) (target : D) cf1 cf2 r,
+  extend_injective extend -> pcr0data_injective pcr0data -> lin_limit st <= 2 ^ 64 ->
+  1 <= cf1 -> 1 <= cf2 -> no_overflow D st log ->
+  In (FSome r) (outcomes D deqb pcr_init extend pcr0data st log target cf1) ->
+  forall o, In o (outcomes D deqb pcr_init extend pcr0data st log target cf2) ->
+    exists r', o = FSome r'.
+Proof. exact parallelism_cf. Qed.
+Print Assumptions C03_parallelism_collision_free.
+
+Theorem C03_parallelism_none_collision_free : forall D (deqb : D -> D -> bool),
+  (forall a b, deqb a b = true <-> a = b) ->
+  forall (pcr_init : Z -> D) (extend : D -> D -> D) (pcr0data : Z -> Z -> D) st
+         (log : list (meas D)) (target : D) cf1 cf2,
+  extend_injective extend -> pcr0data_injective pcr0data -> lin_limit st <= 2 ^ 64 ->
+  1 <= cf1 -> 1 <= cf2 -> no_overflow D st log ->
+  outcomes D deqb pcr_init extend pcr0data st log target cf1 = [FNone] ->
+  outcomes D deqb pcr_init extend pcr0data st log target cf2 = [FNone].
+Proof. exact parallelism_none_cf. Qed.
+Print Assumptions C03_parallelism_none_collision_free.
+
+(** * 7. The caller's command log: what is searched, and the repository's own
+    application of a result (pcr0tool) *)
+
+(** filteredMeasurements hands the search exactly the PCR0 extends of the requested
+    bank, each once, in log order (positions strictly increasing) *)
+Theorem C03_filter_exact : forall D alg (cmds : list (lcmd D)),
+  (forall p m, In (p, m) (PCR0Tool.filter_log D alg 0 cmds) <-> nth_error cmds p = Some (LExt 0 alg m)) /\
+  StronglySorted lt (map fst (PCR0Tool.filter_log D alg 0 cmds)).
+Proof. exact filter_log_exact. Qed.
+Print Assumptions C03_filter_exact.
+
+(** a result without swaps whose register leaves the PCR0_DATA digest as recorded:
+    the tool replays exactly what [replay_result] replays -- any log (TPMInit
+    anywhere, event-log entries, other PCRs and banks), any disabled measurements;
+    it prints one of its two verdicts, never panics *)
+Theorem C03_tool_agrees_without_swaps : forall D (deqb : D -> D -> bool) (pcr_init : Z -> D)
+    (extend : D -> D -> D) (pcr0data : Z -> Z -> D) alg (cmds : list (lcmd D)) target r,
+  let f := PCR0Tool.filter_log D alg 0 cmds in
+  Forall (fun i => (i < length f)%nat) (r_disabled r) ->
+  r_swaps r = [] -> reg_neutral D pcr0data (map snd f) r ->
+  tool_verdict D deqb pcr_init extend alg cmds target (r_loc r) (cmd_positions f (r_disabled r)) (r_swaps r)
+  = if deqb (replay_result D pcr_init extend pcr0data (map snd f) r) target then TVOk else TVMismatch.
+Proof. exact tool_agrees_no_swaps. Qed.
+Print Assumptions C03_tool_agrees_without_swaps.
+
+(** a result with swaps: the same when nothing is disabled and the log does not
+    start with TPMInit(reported locality) *)
+Theorem C03_tool_agrees_swaps_only : forall D (deqb : D -> D -> bool) (pcr_init : Z -> D)
+    (extend : D -> D -> D) (pcr0data : Z -> Z -> D) alg (cmds : list (lcmd D)) target r,
+  let f := PCR0Tool.filter_log D alg 0 cmds in
+  r_disabled r = [] -> no_init_kept D (r_loc r) cmds ->
+  Forall (fun i => (i < length f)%nat) (swap_idx (r_swaps r)) ->
+  reg_neutral D pcr0data (map snd f) r ->
+  tool_verdict D deqb pcr_init extend alg cmds target (r_loc r) (cmd_positions f (r_disabled r)) (r_swaps r)
+  = if deqb (replay_result D pcr_init extend pcr0data (map snd f) r) target then TVOk else TVMismatch.
+Proof. exact tool_agrees_swaps_only. Qed.
+Print Assumptions C03_tool_agrees_swaps_only.
+
+(** search and consumer together (collision-free hash): every reported result
+    without swaps and with a neutral register is confirmed by the tool *)
+Theorem C03_tool_accepts_plain_results : forall D (deqb : D -> D -> bool),
+  (forall a b, deqb a b = true <-> a = b) ->
+  forall (pcr_init : Z -> D) (extend : D -> D -> D) (pcr0data : Z -> Z -> D) st alg
+         (cmds : list (lcmd D)) (target : D) cf r,
+  let f := PCR0Tool.filter_log D alg 0 cmds in
+  extend_injective extend -> pcr0data_injective pcr0data -> lin_limit st <= 2 ^ 64 ->
+  1 <= cf -> no_overflow D st (map snd f) ->
+  In (FSome r) (outcomes D deqb pcr_init extend pcr0data st (map snd f) target cf) ->
+  r_swaps r = [] -> reg_neutral D pcr0data (map snd f) r ->
+  tool_verdict D deqb pcr_init extend alg cmds target (r_loc r) (cmd_positions f (r_disabled r)) (r_swaps r)
+  = TVOk.
+Proof. exact tool_accepts_plain. Qed.
+Print Assumptions C03_tool_accepts_plain_results.
+
+(** findings C03-tool-replay-ignores-register and C03-tool-replay-swap-indices:
+    results that ARE reported (the only outcome) and DO replay to the requested value,
+    and what the tool makes of them --
+    1. ACM_POLICY_STATUS off by one, default settings: "internal error" (the corrected
+       register is printed, the recorded PCR0_DATA digest is replayed);
+    2. log = TPMInit(3), PCR0_DATA, two measurements that have to be swapped: found at
+       locality 3 the tool keeps the TPMInit entry as element 0 of the list it swaps in
+       ("internal error"); found at locality 0 it does not and agrees;
+    3. a dropped measurement and a swap behind it: the indices count the dropped entry,
+       the tool's list does not hold it any more: index out of range;
+    4. a swap with PCR0_DATA itself in a log starting with TPMInit(3): the tool moves
+       the TPMInit entry behind an extend, the replay fails, no verdict is printed *)
+Theorem C03_tool_replay_refuted :
+  (forall cf, In cf [1; 4] ->
+     outcomes term term_eqb Init Ext DataH st_w1 (t_log 4 cmds_w1) tgt_w1 cf = [FSome r_w1]) /\
+  t_replay_result (t_log 4 cmds_w1) r_w1 = tgt_w1 /\
+  t_tool 4 cmds_w1 tgt_w1 3 [] [] = TVMismatch /\
+  (forall loc, In loc [0; 3] ->
+     outcomes term term_eqb Init Ext DataH st_w2 (t_log 4 cmds_w2) (tgt_w2 loc) 1 = [FSome (r_w2 loc)] /\
+     t_replay_result (t_log 4 cmds_w2) (r_w2 loc) = tgt_w2 loc) /\
+  t_tool 4 cmds_w2 (tgt_w2 3) 3 [] [(1, 2)%nat] = TVMismatch /\
+  t_tool 4 cmds_w2 (tgt_w2 0) 0 [] [(1, 2)%nat] = TVOk /\
+  outcomes term term_eqb Init Ext DataH st_w3 (t_log 4 cmds_w3) tgt_w3 1 = [FSome r_w3] /\
+  t_replay_result (t_log 4 cmds_w3) r_w3 = tgt_w3 /\
+  t_tool 4 cmds_w3 tgt_w3 0 [2%nat] [(2, 3)%nat] = TVPanic /\
+  outcomes term term_eqb Init Ext DataH st_w2 (t_log 4 cmds_w4) tgt_w4 1 = [FSome r_w4] /\
+  t_replay_result (t_log 4 cmds_w4) r_w4 = tgt_w4 /\
+  t_tool 4 cmds_w4 tgt_w4 3 [] [(0, 1)%nat] = TVSilent.
+Proof. exact tool_replay_witnesses. Qed.
+Print Assumptions C03_tool_replay_refuted.
+
 
 (** * Hypotheses are satisfiable *)
 
@@ -361,6 +596,34 @@ Proof. exact term_eqb_spec. Qed.
 Example C03_ex_no_overflow : forall D st (log : list (meas D)),
   (length log <= 62)%nat -> no_overflow D st log.
 Proof. exact no_overflow_small. Qed.
+
+(** the free terms of the correspondence check are collision-free *)
+Example C03_ex_collision_free : extend_injective Ext /\ pcr0data_injective DataH.
+Proof. exact (conj term_extend_injective term_pcr0data_injective). Qed.
+
+(** [reg_neutral]: no register, or the recorded digest is the hash with the reported one *)
+Example C03_ex_reg_neutral : forall D (pcr0data : Z -> Z -> D) (log : list (meas D)) r v,
+  r_reg r = Some v ->
+  (forall p m tail reg0,
+     first_true (map (fun i => negb (mem_nat i (r_disabled r))) (seq 0 (length log))) 0 = Some p ->
+     nth_error log p = Some m -> m_data m = Some (tail, reg0) -> pcr0data tail v = m_dig m) ->
+  reg_neutral D pcr0data log r.
+Proof. exact reg_neutral_same. Qed.
+
+(** the premises of the two agreement theorems on real-shaped logs: TPMInit(3),
+    PCR0_DATA, three measurements, one dropped, found at locality 3 (the tool says
+    "Resulting PCR0"); and a swap found at locality 0 *)
+Example C03_ex_tool_agreement :
+  (let f := filter_log 4 0 cmds_w3 in
+   Forall (fun i => (i < length f)%nat) (r_disabled r_ex1) /\ r_swaps r_ex1 = [] /\
+   reg_neutral term DataH (map snd f) r_ex1 /\ cmd_positions f (r_disabled r_ex1) = [3%nat] /\
+   t_replay_result (map snd f) r_ex1 = tgt_ex1 /\
+   t_tool 4 cmds_w3 tgt_ex1 3 [3%nat] [] = TVOk) /\
+  (let f := filter_log 4 0 cmds_w2 in
+   r_disabled (r_w2 0) = [] /\ no_init_kept term (r_loc (r_w2 0)) cmds_w2 /\
+   Forall (fun i => (i < length f)%nat) (swap_idx (r_swaps (r_w2 0))) /\
+   reg_neutral term DataH (map snd f) (r_w2 0)).
+Proof. exact tool_agreement_examples. Qed.
 
 (** one register candidate: [acm_unique] for every hash and every log *)
 Example C03_ex_acm_unique : forall D deqb pcr_init extend pcr0data st (log : list (meas D)) target,
